@@ -340,19 +340,21 @@ def unit_set_constraint(states, self_pos, mode):
         outcome = drive_coroutine(ctx, igen)
 
         def spec(env):
-            exp = {"trace": [], "outcome": ("return",), "violated": None}
+            exp = {"trace": [], "outcome": ("return",), "violated": None, "alts": []}
             for r in regions:
                 g = r._ghost
                 if g["state"] != "armed":
                     continue
                 if env.decide(g["a0"] + s > g["max"]):
-                    exp["violated"] = r
                     rec = {"constraint": r, "violator_path": cpath, "violator_value": s, "exceeded_by": z3.simplify(g["a0"] + s - g["max"]), "size_already": g["a0"], "size_max": g["max"]}
-                    if mode == "strict":
-                        exp["outcome"] = ("raise", "AnticipatedSizeConstraintExceededError", rec)
-                    else:
-                        exp["trace"] = [("warning", "AnticipatedSizeConstraintExceededError", rec)]
-                    break
+                    exp["alts"].append(rec)
+            if exp["alts"]:
+                rec = exp["alts"][0]
+                exp["violated"] = rec["constraint"]
+                if mode == "strict":
+                    exp["outcome"] = ("raise", "AnticipatedSizeConstraintExceededError", rec)
+                else:
+                    exp["trace"] = [("warning", "AnticipatedSizeConstraintExceededError", rec)]
             return exp
 
         def goal(exp):
@@ -364,8 +366,20 @@ def unit_set_constraint(states, self_pos, mode):
             else:
                 g["outcome/raises"] = (outcome[0] == "raise", f"actual {_safe(outcome)}")
                 if outcome[0] == "raise":
-                    for k, v in cmp_error(outcome[1].exc, exp["outcome"][1], exp["outcome"][2]).items():
-                        g[f"outcome/{k}"] = v
+                    if len(exp.get("alts", [])) > 1:
+                        # several enclosing regions are too small for the announced size: the property does not say which is named
+                        ors = []
+                        for rec in exp["alts"]:
+                            vals = [v[0] if isinstance(v, tuple) else v for v in cmp_error(outcome[1].exc, exp["outcome"][1], rec).values()]
+                            ors.append(conj(vals))
+                        if any(o is True for o in ors):
+                            g["outcome/names-one-of-the-regions-that-cannot-hold-the-size"] = True
+                        else:
+                            ors = [o for o in ors if o is not False]
+                            g["outcome/names-one-of-the-regions-that-cannot-hold-the-size"] = z3.Or(ors) if ors else False
+                    else:
+                        for k, v in cmp_error(outcome[1].exc, exp["outcome"][1], exp["outcome"][2]).items():
+                            g[f"outcome/{k}"] = v
             g["self/armed-with-size"] = _eq(me.size_max, s) if me.size_max is not None else False
             g["self/path"] = me.constraint_path == cpath
             g["self/already-unchanged"] = _eq(me.size_already, me._ghost["a0"])
